@@ -58,7 +58,7 @@ let () =
   register "gg_guard" (function [name; args; pok] ->
       let a = to_zl args and p = to_bool pok in
       of_bool (match to_str name with
-          | "gnd" -> gg_guard_gnd a | "gnp" -> gg_guard_gnp a p | "gnm" -> gg_guard_gnm a
+          | "gnd" -> gg_guard_gnd a | "gnd-spec" -> gg_guard_gnd_spec a | "gnp" -> gg_guard_gnp a p | "gnm" -> gg_guard_gnm a
           | "complete-simple" -> gg_guard_complete_simple a | "empty-simple" -> gg_guard_empty_simple a
           | "grid" | "torus" -> gg_guard_grid a | "glrp" -> gg_guard_glrp a p | "glrm" -> gg_guard_glrm a
           | "glrd" -> gg_guard_glrd a | "regular" -> gg_guard_regular a | "shift" -> gg_guard_shift a
